@@ -13,14 +13,29 @@ ROOTS = ["r1", "second-root-with-a-longer-name", "r3/nested/deeper"]
 WIDE = {"k%02d" % i: "v%d" % i for i in range(12)}
 
 
+ORDER_SENSITIVE = [("build", "default", b"FOO", b"d"), ("build", "append", b"FOO", b"a"), ("build", "prepend", b"FOO", b"p"), ("build", "delim", b"FOO", b"+"),
+                   ("launch", "override", b"BAR", b"o"), ("launch", "append", b"BAR", b"a"), ("launch", "default", b"BAR", b"d"), ("process:web", "prepend", b"BAR", b"w"),
+                   ("process:web", "default", b"BAR", b"x")]
+
+
 def widen_c01(steps):
+    out = []
+    for s in steps:
+        out.append(s)
+        if s["op"] == "write_env":
+            out.append({"op": "env_to_metadata", "name": s["name"]})
+    steps[:] = out
     for s in steps:
         if s["op"] == "write_metadata":
             s["metadata"] = dict(s["metadata"])
             s["metadata"].update(WIDE)
             s["metadata"]["nested"] = dict(WIDE)
         if s["op"] == "write_env":
-            s["entries"] = list(c01.ENV_POOL) + [("process:p%d" % i, "override", b"K%d" % i, b"v") for i in range(8)]
+            s["entries"] = list(c01.ENV_POOL) + ORDER_SENSITIVE + [("process:p%d" % i, "override", b"K%d" % i, b"v") for i in range(8)]
+        if s["op"] == "write_sboms" and s["sboms"]:
+            # two different documents of one format: which one ends up on disk must not depend on the process
+            f0 = s["sboms"][0][0]
+            s["sboms"] = [[f0, b'{"first":1}'.hex()]] + s["sboms"] + [[f0, b'{"last":2}'.hex()]]
         if s["op"] == "write_exec_d":
             s["programs"] = [[p, p] for p in ("p1", "p2", "p3")]
     return steps
@@ -30,8 +45,11 @@ def widen_c02(steps):
     for s in steps:
         for k in ("create", "update"):
             if k in s and "err" not in s[k]:
-                s[k]["env"] = list(c01.ENV_POOL) + [("process:p%d" % i, "override", b"K%d" % i, b"v") for i in range(8)]
+                s[k]["env"] = list(c01.ENV_POOL) + ORDER_SENSITIVE + [("process:p%d" % i, "override", b"K%d" % i, b"v") for i in range(8)]
                 s[k]["exec_d"] = [[p, p] for p in ("p1", "p2", "p3")]
+                if s[k]["sboms"]:
+                    f0 = s[k]["sboms"][0][0]
+                    s[k]["sboms"] = [[f0, b'{"first":1}'.hex()]] + s[k]["sboms"] + [[f0, b'{"last":2}'.hex()]]
     return steps
 
 
